@@ -1,10 +1,11 @@
 CFG = dict(
+    race_pass=True,   # the free-running rounds once more in a harness built with -race (a search, never a proof)
     theorems=["C18.run_reaches", "C18.stop_idempotent", "C18.emit_after_stop_noop", "C18.stop_barrier",
               "C18.stop_barrier_unguarded_fails", "C18.sink_panic_contained",
               "C18.no_self_deadlock_on_reentrant_sink", "C18.no_self_deadlock_holding_fails",
               "C18.self_wait_is_stuck", "C18.facts_lifecycle"],
     level="proof",
-    unproved=["absence of data races on memory (needs the Go memory model; not expressible in the protocol model): searched with the race detector only",
+    unproved=["absence of data races on memory (needs the Go memory model; not expressible in the protocol model): searched only — every run repeats the free-running rounds (15 query kinds incl. event time with ALLOWEDLATENESS, wrapped analytic calls; Emit ‖ EmitSync ‖ AddSink ‖ GetStats ‖ TriggerWindow ‖ two Stops) in a harness built with -race; a report is a definite race, silence proves nothing (coverage.race_detector)",
               "no goroutine leak after Stop / Stop returns within its grace period as wall-clock time: the model proves that Stop passes waitLifecycle only with the counter at zero and that every tracked thread exits once done is closed and it is scheduled; real-time bounds and leaks are outside every theorem",
               "the eight query kinds: the protocol model is query-independent (one result-producing engine thread); window / CEP specific goroutines (window trigger loops, CEP sweeper, the inline CEP flush of Stop) are not modelled",
               "start_stop_serialised (Start racing Stop: lifecycle.Add never races Wait — the startMu argument) and cep_flush_before_return of DESIGN §5 are not modelled: Start happens before any schedule begins, MATCH_RECOGNIZE's inline flush is exercised only by the free-running search",
